@@ -317,6 +317,14 @@ def specs(draw, sharing=None, builders=None, max_len=48, long_prob=0.1, neg_stor
                 elif scls == "VideoStreaming" and objs[tgt]["cls"] == "Server" and \
                         objs[tgt].get("ram", [128.0, "GB"])[0] < 32:
                     objs[tgt]["ram"] = [64.0, "GB"]
+                elif scls == "VideoStreaming" and objs[tgt]["cls"] == "BoaviztaCloudServer":
+                    cap = boavizta_ram_gb(objs[tgt]["provider"], objs[tgt]["instance_type"]) * \
+                        objs[tgt].get("server_utilization_rate", [0.9])[0]
+                    already = sum(objs[x].get("base_ram_consumption", [2.0])[0] for x in services
+                                  if objs[x]["cls"] == "VideoStreaming" and objs[x]["server"] == tgt)
+                    room = max(cap * 0.6 - already, 0.0)
+                    e2["base_ram_consumption"] = [float("%.3g" % min(e2.get("base_ram_consumption", [2.0])[0],
+                                                                      room / 2 if room else 0.0)), "GB"]
                 objs["svc_twin"] = e2
                 services.append("svc_twin")
 
